@@ -77,7 +77,12 @@ pub fn check_pruning(r: &Arc<RedeemNode>, fam: Fam, env: &envs::Env, has_fail: b
     // idempotence
     let pp = prune(&p, fam, env).map_err(|e| ("prune:reprune-fails".to_string(), e))?;
     if pp.ihr() != p.ihr() || pp.to_vec_with_witness() != p.to_vec_with_witness() {
-        return Err(("prune:not-idempotent".into(), "pruning the pruned program changes it".into()));
+        let show = |x: &RedeemNode| {
+            let (a, b) = x.to_vec_with_witness();
+            let nodes: Vec<String> = x.post_order_iter::<InternalSharing>().map(|i| format!("{}:{}", i.node.inner(), i.node.arrow())).collect();
+            format!("{} / {} [{}]", crate::reference::bits::hex(&a), crate::reference::bits::hex(&b), nodes.join("; "))
+        };
+        return Err(("prune:not-idempotent".into(), format!("pruning the pruned program changes it: pruned once = {}; pruned twice = {}", show(&p), show(&pp))));
     }
     // round trip of the pruned program through its own encoding
     let (pb, wb) = p.to_vec_with_witness();
@@ -114,12 +119,56 @@ fn run(ctx: &Ctx, out: &mut Out) {
     let env = envs::build(&envs::base_env());
     leg_population(ctx, out, &env.env);
     leg_gadgets(ctx, out, &env.env);
+    leg_shared_with_hidden(ctx, out, &env.env);
+}
+
+/// A node shared between the branch that pruning hides and the part that stays (finding F16 needs 6
+/// nodes, which the quick population does not reach): comp witness (case (take u) X) and its mirror,
+/// with X one of five case-like nodes over the same `unit` node u.
+fn leg_shared_with_hidden(ctx: &Ctx, out: &mut Out, env: &envs::Env) {
+    let leg = "shared-with-hidden";
+    if !ctx.mine() {
+        return;
+    }
+    let n = |sym, l: usize, r: usize| Node { sym, l: l as u8, r: r as u8 };
+    for fam in [Fam::Core, Fam::Elements] {
+        for x in [n(Sym::Case, 1, 1), n(Sym::Case, 1, 2), n(Sym::Case, 2, 1), n(Sym::AssertL(7), 1, 0), n(Sym::AssertR(7), 1, 0)] {
+            for mirror in [false, true] {
+                let (a, b) = if mirror { (3, 2) } else { (2, 3) };
+                let dag: Dag = vec![n(Sym::Witness, 0, 0), n(Sym::Unit, 0, 0), n(Sym::Take, 1, 0), x, n(Sym::Case, a, b), n(Sym::Comp, 0, 4)];
+                let Some(p) = Prog::new(&dag, fam) else { continue };
+                let (assignments, _) = p.witness_assignments(6, 64);
+                for wit in &assignments {
+                    let label = || format!("{} {}", p.render(), wit_str(wit));
+                    if !ctx.begin(leg, &label) {
+                        continue;
+                    }
+                    let Ok(r) = p.to_redeem(wit) else {
+                        ctx.end();
+                        continue;
+                    };
+                    match guard(|| check_pruning(&r, fam, env, false, out)) {
+                        Ok(Ok(true)) => {
+                            out.evaluations += 1;
+                            out.states += 1;
+                            out.nontrivial += 1;
+                            out.sample(leg, || (label(), "prune ok: same CMR and output, witnesses typed, idempotent, own encoding decodes to the same identity root".into()));
+                        }
+                        Ok(Ok(false)) => out.outcome("unpruned-run-fails"),
+                        Ok(Err((c, d))) => out.violation(&c, leg, label(), d),
+                        Err(pn) => out.violation(&panic_class(&pn), leg, label(), pn),
+                    }
+                    ctx.end();
+                }
+            }
+        }
+    }
 }
 
 fn leg_population(ctx: &Ctx, out: &mut Out, env: &envs::Env) {
     let leg = "population";
     for fam in [Fam::Core, Fam::Elements] {
-        let nmax = ctx.tier.pick(4, 5);
+        let nmax = ctx.tier.pick(4, 6);
         for n in 1..=nmax {
             let alpha = sigma_p(fam);
             let mut dags: Vec<Dag> = vec![];
